@@ -146,7 +146,7 @@ def cases(tier, seed, shard, nshards):
     if tier == "thorough":
         for _ in range(1600 // nshards):
             yield _crash_case(rng)
-    nrand = (1280 if tier == "quick" else 16000) // nshards
+    nrand = (1280 if tier == "quick" else 12000) // nshards
     for _ in range(nrand):
         qk = rng.choice(["durq", "dusq"])
         two = rng.random() < 0.4
@@ -163,7 +163,7 @@ def cases(tier, seed, shard, nshards):
             n5 = len(al) ** 5
             mine = [j for j in range(shard, n5, nshards)]
             rng.shuffle(mine)
-            for j in mine[: 24000 // nshards]:
+            for j in mine[: 16000 // nshards]:
                 hist = []
                 for _ in range(5):
                     j, r = divmod(j, len(al))
